@@ -233,3 +233,35 @@ Proof.
   - unfold q_has_children, q_is_leaf, has_ch, is_nil. cbn [c_self snd]. reflexivity.
   - unfold q_depth. cbn [c_anc fst snd]. rewrite (fpath_length f anc _ sibs P). reflexivity.
 Qed.
+
+(* ------------------------------------------------------------------ *)
+(* the property sentence, end to end: under a title line, the prefix of *)
+(* every node encodes the code-level facts about that node              *)
+(* ------------------------------------------------------------------ *)
+Lemma Forall2_map_same {X Y Z} (R : Y -> Z -> Prop) (F : X -> Y) (G : X -> Z) (l : list X) :
+  Forall (fun x => R (F x) (G x)) l -> Forall2 R (map F l) (map G l).
+Proof. induction 1 as [|x l Hx _ IH]; cbn [map]; constructor; assumption. Qed.
+
+Definition prefix_encodes (f : forest) (g : seg6) (p : text) (t : rt) : Prop :=
+  exists nc, locate_f (rid t) f = Some nc /\ c_self nc = t
+    /\ decode_depth g p = q_depth nc
+    /\ (anc_distinct g = true ->
+        decode_anc g p = map (fun a => Some (is_last_located f a)) (q_parent_list nc false false))
+    /\ (last_distinct g = true -> dec_last g (own_part g p) = Some (q_is_last nc))
+    /\ (hc_distinct g = true -> dec_hc g (own_part g p) = Some (q_has_children nc)).
+
+Theorem tree_prefixes_encode f g : NoDup (ids f) -> style_okb g = true ->
+  Forall2 (prefix_encodes f g) (rel_prefixes g true f) (pre_f f).
+Proof.
+  intros ND OK. unfold rel_prefixes. rewrite <- (ctxs_nodes_l f []).
+  apply Forall2_map_same. pose proof (ctxs_located f ND) as H.
+  rewrite Forall_forall in *. intros c Hc.
+  destruct (H c Hc) as (nc & Lc & Sf & An & La & Hc' & Dp).
+  assert (D : 1 <= rdepth true c) by (unfold rdepth; lia).
+  exists nc. refine (conj Lc (conj Sf (conj _ (conj _ (conj _ _))))).
+  - rewrite (decode_depth_pfx g true c OK), Dp. unfold rdepth. reflexivity.
+  - intros DA. rewrite (decode_anc_pfx g true c OK D DA). cbn [rel_flags].
+    rewrite An, map_map. reflexivity.
+  - intros DL. rewrite (decode_last_pfx g true c OK D DL), La. reflexivity.
+  - intros DH. rewrite (decode_hc_pfx g true c OK D DH), Hc'. reflexivity.
+Qed.
